@@ -83,7 +83,8 @@ type connEv struct {
 
 type scenario struct {
 	ConnEvs []connEv `json:"conn_events,omitempty"`
-	Kind    string   `json:"kind"` // directed racy shutdown history
+	Dur     string   `json:"duration,omitempty"` // SetQueryEventDuration argument ("" = 25ms); zero and negative mean: expired at once
+	Kind    string   `json:"kind"`               // directed racy shutdown history
 	Workers int      `json:"workers"`
 	QEs     []qeSpec `json:"qes"`
 	Batches []int    `json:"batches"` // sizes, directed
@@ -110,6 +111,9 @@ func (r *runner) desc(qe int) map[string]interface{} {
 	d := map[string]interface{}{"gen": r.sc.Gen, "kind": r.sc.Kind, "query_events": len(r.sc.QEs), "workers": r.sc.Workers}
 	if len(r.sc.ConnEvs) > 0 {
 		d["calls_while_query_events_active"] = r.sc.ConnEvs
+	}
+	if r.sc.Dur != "" {
+		d["SetQueryEventDuration"] = r.sc.Dur
 	}
 	if qe >= 0 && qe < len(r.sc.QEs) {
 		q := r.sc.QEs[qe]
@@ -569,11 +573,12 @@ type qeState struct {
 	sentJ   []int // request indices already sent
 	run     int
 	cn      *conn
-	staleN  []int     // numbers of the stale requests addressed to its subject in a later run
-	subAt   time.Time // ChanSubscribe returned
-	expAt   time.Time // queryEventExpire was entered for it (gate query-expire reached)
-	within  []int     // requests accepted into the channel less than the query duration after subAt
-	rdvN    int32     // callbacks that rendezvous (requests whose script contains "rdv")
+	staleN  []int         // numbers of the stale requests addressed to its subject in a later run
+	late    time.Duration // how long after it could first have happened the expiry callback started
+	subAt   time.Time     // ChanSubscribe returned
+	expAt   time.Time     // queryEventExpire was entered for it (gate query-expire reached)
+	within  []int         // requests accepted into the channel less than the query duration after subAt
+	rdvN    int32         // callbacks that rendezvous (requests whose script contains "rdv")
 	rdvIn   int32
 	rdvCh   chan struct{}
 }
@@ -601,6 +606,9 @@ type runner struct {
 	settleTimeouts    int
 	rdvOK, rdvTimeout int32
 	connDone          []chan struct{}
+	dur               time.Duration // the configured query event duration
+	notAtOnce         bool
+	lastRel           map[int]time.Time // per Serve run: when the director last let an expiry callback proceed
 	impl              []ImplViolation
 	stalled           bool
 	aborted           bool
@@ -754,6 +762,18 @@ func (r *runner) classify(ev *gateEv) {
 			r.expNext[run]++
 			if q := r.qes[ev.k]; q.expAt.IsZero() {
 				q.expAt = ev.at
+				// the timer goroutine calls the expiry callbacks one after the other: this one could start when the
+				// configured duration had elapsed and the director had released the previous one
+				base := q.subAt
+				if r.dur > 0 {
+					base = base.Add(r.dur)
+				}
+				if lr := r.lastRel[run]; lr.After(base) {
+					base = lr
+				}
+				if d := ev.at.Sub(base); d > 0 {
+					q.late = d
+				}
 			}
 		} else {
 			r.violation("harness", "expiry of an unknown query event")
@@ -828,7 +848,7 @@ func (r *runner) send(q *qeState, j int) bool {
 	r.log = append(r.log, entry{gid: g, kind: "arrive", k: q.k, j: j, ok: acc})
 	r.mu.Unlock()
 	q.sentJ = append(q.sentJ, j)
-	if acc && time.Since(q.subAt) < queryDuration {
+	if acc && time.Since(q.subAt) < r.dur {
 		q.within = append(q.within, j) // the send completed inside the configured duration: the query event must still be active
 	}
 	return acc
@@ -878,6 +898,13 @@ func (r *runner) cb(q *qeState) func(res.QueryRequest) {
 		}
 		r.add(entry{kind: "cb", k: q.k, j: j})
 		if j >= 0 && j < staleBase {
+			// observe a panic of the callback (and pass it on unchanged, typed nil included)
+			defer func() {
+				if v := recover(); v != nil {
+					r.add(entry{kind: "cb-panic", k: q.k, j: j})
+					panic(v)
+				}
+			}()
 			interpret(qr, q.spec.Reqs[j].Script, func(child int) {
 				// a query event sent from inside this request callback: the QueryRequest is its resource
 				c := r.qes[child]
@@ -967,6 +994,16 @@ func (r *runner) create(q *qeState) {
 	case <-q.created:
 		if q.subOK {
 			r.expSeq[q.run] = append(r.expSeq[q.run], q.k)
+			if r.dur <= 0 && !r.notAtOnce {
+				// expired at once: the timer queue starts a timer goroutine per query event (the queue is empty again
+				// while the previous expiry callback is held at the gate), so the arrivals at the gate are only ordered
+				// if each is awaited before the next query event is created.  It stays held until expire(q).
+				if ev := r.await(func(e *gateEv) bool { return e.pt == "query-expire" && e.k == q.k }, 2*time.Second); ev != nil {
+					r.parked = append(r.parked, ev)
+				} else {
+					r.notAtOnce = true // the duration in force is not the configured one: do not wait again (code 14 will say so)
+				}
+			}
 		}
 	case <-time.After(3 * time.Second):
 		r.stall(fmt.Sprintf("QueryEvent %d was not created", q.k))
@@ -976,7 +1013,7 @@ func (r *runner) create(q *qeState) {
 func (r *runner) newService() *res.Service {
 	s := res.NewService("test")
 	s.SetLogger(nil)
-	s.SetQueryEventDuration(queryDuration)
+	s.SetQueryEventDuration(r.dur)
 	s.SetWorkerCount(r.sc.Workers)
 	get := res.GetResource(func(q res.GetRequest) { q.NotFound() })
 	trigger := res.Call("trigger", func(cr res.CallRequest) {
@@ -1166,7 +1203,7 @@ func (r *runner) connEvents(at string) {
 
 // expire handles the expiry of query event q under the director's control.
 func (r *runner) expire(q *qeState) {
-	ev := r.await(func(e *gateEv) bool { return e.pt == "query-expire" && e.k == q.k }, 3*time.Second)
+	ev := r.await(func(e *gateEv) bool { return e.pt == "query-expire" && e.k == q.k }, 6*time.Second)
 	if ev == nil {
 		r.stall(fmt.Sprintf("query event %d did not expire", q.k))
 		return
@@ -1179,6 +1216,7 @@ func (r *runner) expire(q *qeState) {
 		}
 	}
 	r.expect = q.k
+	r.lastRel[q.run] = time.Now()
 	release(ev, q.k) // Drain, close(done)
 	mine := func(e *gateEv) bool { return e.k == q.k && e.pt != "query-expire" }
 	if q.held == nil {
@@ -1449,7 +1487,7 @@ func (r *runner) runRacy() {
 				}
 				r.log = append(r.log, entry{gid: g, kind: "arrive", k: q.k, j: j, ok: acc})
 				r.mu.Unlock()
-				if acc && time.Since(q.subAt) < queryDuration {
+				if acc && time.Since(q.subAt) < r.dur {
 					q.within = append(q.within, j)
 				}
 			}
@@ -1466,6 +1504,9 @@ func (r *runner) runRacy() {
 					q.exited = true
 				}
 			} else {
+				if e.pt == "query-expire" {
+					r.lastRel[q.run] = time.Now()
+				}
 				release(e, q.k)
 			}
 		}
@@ -1815,6 +1856,7 @@ type qconv struct {
 	failNil  bool
 	exited   bool
 	nontriv  int
+	panicked []int // requests whose callback panicked before any response had been published
 }
 
 func (r *runner) convert() []Case {
@@ -1927,6 +1969,17 @@ func (r *runner) convert() []Case {
 			if e.s != r.qes[k].rid() {
 				r.violation("harness", "listener exit note for "+e.s+" attributed to "+r.qes[k].rid())
 			}
+		case "cb-panic":
+			c := cv[e.k]
+			replied := false
+			for _, o := range c.resps[e.j] {
+				if strings.HasPrefix(o, "PResp") {
+					replied = true
+				}
+			}
+			if !replied {
+				c.panicked = append(c.panicked, e.j)
+			}
 		case "expire":
 			if e.k >= 0 {
 				emit(e.k, "LQExpire", false)
@@ -1993,6 +2046,18 @@ func (r *runner) convert() []Case {
 		for _, n := range q.staleN {
 			stale = append(stale, List(stalePubs[n]))
 		}
+		durUS := r.dur / time.Microsecond
+		if durUS < 0 {
+			durUS = 0 // a zero or negative duration: expired at once
+		}
+		late := "None"
+		if q.subOK && !q.expAt.IsZero() {
+			late = fmt.Sprintf("(Some %d)", q.late/time.Microsecond)
+		}
+		var panicked []string
+		for _, j := range c.panicked {
+			panicked = append(panicked, strconv.Itoa(j))
+		}
 		life := "None"
 		if q.subOK && !q.expAt.IsZero() {
 			life = fmt.Sprintf("(Some %d)", q.expAt.Sub(q.subAt)/time.Microsecond)
@@ -2001,9 +2066,9 @@ func (r *runner) convert() []Case {
 		for _, j := range q.within {
 			within = append(within, strconv.Itoa(j))
 		}
-		term := fmt.Sprintf("QC (Cfg %s %s) %s %s %s %d %s %s %d %s %s %d %s %s", Bool(q.spec.Res != "p"), ty, List(c.labels), List(c.calls),
+		term := fmt.Sprintf("QC (Cfg %s %s) %s %s %s %d %s %s %d %s %s %d %s %s %s %s", Bool(q.spec.Res != "p"), ty, List(c.labels), List(c.calls),
 			List(resps), c.npub, Bool(c.exited), Bool(complete), subj, List(prev), List(stale),
-			queryDuration/time.Microsecond, life, List(within))
+			durUS, life, List(within), late, List(panicked))
 		tags := []string{r.sc.Kind}
 		if q.spec.FailSub {
 			tags = append(tags, "failed-sub")
@@ -2093,7 +2158,14 @@ type result struct {
 
 func runScenario(sc scenario) result {
 	r := &runner{sc: sc, events: make(chan *gateEv, 65536), lgid: map[uint64]int{}, expect: -1,
-		expSeq: map[int][]int{}, expNext: map[int]int{}, staleTo: map[int]int{}}
+		expSeq: map[int][]int{}, expNext: map[int]int{}, staleTo: map[int]int{}, lastRel: map[int]time.Time{}, dur: queryDuration}
+	if sc.Dur != "" {
+		d, err := time.ParseDuration(sc.Dur)
+		if err != nil {
+			panic(err)
+		}
+		r.dur = d
+	}
 	for k, qs := range sc.QEs {
 		q := &qeState{spec: qs, k: k, created: make(chan struct{}), rdvCh: make(chan struct{})}
 		for _, rq := range qs.Reqs {
@@ -2140,6 +2212,9 @@ func runScenario(sc scenario) result {
 	d["scenario-"+sc.Kind]++
 	for _, ce := range sc.ConnEvs {
 		d["while-active-"+ce.What]++
+	}
+	if sc.Dur != "" {
+		d["duration-"+sc.Dur]++
 	}
 	if n := atomic.LoadInt32(&r.rdvOK); n > 0 {
 		d["parallel-callbacks-overlapping"] += int(n)
@@ -2452,6 +2527,15 @@ func generate(o Opts) []scenario {
 		scs = append(scs, scenario{Kind: "history-nats", Workers: 4, History: hist, Seed: rng.Next() % 1000000})
 	}
 	for i := range scs {
+		if !strings.HasPrefix(scs[i].Kind, "history") && rng.Chance(30) {
+			// several query events with a short positive duration would reach the gate from several timer goroutines in
+			// an order the director cannot know: those durations only where one query event is alive at a time
+			if scs[i].Kind == "racy" {
+				scs[i].Dur = rng.Pick([]string{"0", "-5ms", "1ms", "1ms", "8ms", "8ms"})
+			} else {
+				scs[i].Dur = rng.Pick([]string{"0", "0", "-5ms"})
+			}
+		}
 		scs[i].Index = i
 		scs[i].Gen = genRef{Seed: o.Seed, Tier: o.Tier, N: o.N, Index: i, Subset: raceSubset}
 	}
@@ -2608,6 +2692,8 @@ func main() {
 			"the query sent in the request, restart histories on ONE service object (run 0 with query events of which some expire and some are still active at Shutdown, "+
 			"Serve again on a fresh connection object, run 1 with new query events, requests published on the subjects of run 0, the old query "+
 			"events expiring inside the restarted service: all subjects over the whole history pairwise distinct, nothing answers a stale request), "+
+			"query event durations 25 ms, 8 ms, 1 ms, 0 and negative (expired at once; the expiry callback starts no earlier than the configured duration "+
+			"and no later than 1 s after it could), callback panics observed (a panic before any reply must be answered with an error), "+
 			"the service's reconnect/disconnect handlers and ResetAll/Reset/TokenReset called while query events are active (no expiry before the "+
 			"configured duration, requests accepted within the duration answered), Parallel resources with 2-4 request callbacks of one query event made to overlap (they wait for each other, then re-read Query()/ParseQuery()), "+
 			"model/collection/untyped/grouped/Parallel resources (Parallel excluded from the ordering claim), query events created "+
